@@ -31,6 +31,10 @@ type Gen struct {
 	// very block that auto-activates it (a forward-processing defect of the
 	// node leaves such a producer both Active and Canceled/Illegal).
 	AllowActivationClash bool
+	// AllowKeyOverlap lets a producer register with a node key that is another
+	// cast member's owner key (known defect: State.getProducer then resolves
+	// that owner key to the wrong producer).
+	AllowKeyOverlap bool
 	// Lazy producers (cast index) never sponsor a block when on duty: the view
 	// changes to the next arbiter, which is how producers become inactive.
 	Lazy map[int]bool
@@ -412,8 +416,10 @@ func (g *Gen) candidate(t *rapid.T, kind string, spent map[string]bool) *cand {
 		case 1:
 			// the node key is the owner key of the next cast member (who may
 			// register later: owner key == somebody's node key is admitted
-			// before DPoSV2StartHeight)
-			node = g.owner((i + 1) % g.NProducers)
+			// before DPoSV2StartHeight and makes getProducer ambiguous)
+			if g.AllowKeyOverlap {
+				node = g.owner((i + 1) % g.NProducers)
+			}
 		}
 		g.nick++
 		dep := common.Fixed64(rapid.SampledFrom([]int64{5000, 5000, 5500, 6000, 8000}).Draw(t, "deposit")) * ELA
